@@ -136,6 +136,7 @@ func p2pLiveness(c *Ctx, netId uint64) {
 		a.momentum()
 	}
 	r.refreshChain()
+	formatLogs() // production-like logging: every record is formatted (see s_p2p_net.go)
 	r.pm = protocol.NewProtocolManager(1, netId, a.bridge)
 	r.pm.Start()
 
